@@ -838,7 +838,7 @@ func c20Ids(c *core.Ctx, R string) {
 					off, _ := core.ConstInt(info, se.Low)
 					// value derives from sequenceNumber.Add(…)
 					fromSeq := false
-					ast.Inspect(cl.Arg(1), func(n ast.Node) bool {
+					ast.Inspect(g.Deep(cl.Arg(1)), func(n ast.Node) bool { // through a local such as `seq := b.sequenceNumber.Add(1) - 1`
 						if ce, ok := n.(*ast.CallExpr); ok {
 							if se2, ok := ce.Fun.(*ast.SelectorExpr); ok && se2.Sel.Name == "Add" && fieldOf(info, se2.X) == "base64Id.sequenceNumber" {
 								if k, ok := core.ConstInt(info, ce.Args[0]); ok && k == 1 {
